@@ -94,6 +94,20 @@ type VerifNFS40Snapshot struct {
 	LockOwnerFiles        []VerifNFS40LockOwnerFile
 }
 
+// VerifNFS40LockFree reports whether the program lock can currently be
+// acquired, i.e. whether no request has left it held. It never blocks.
+func VerifNFS40LockFree(program nfsv4.Nfs4Program) bool {
+	p, ok := program.(*nfs40Program)
+	if !ok {
+		return false
+	}
+	if !p.lock.TryLock() {
+		return false
+	}
+	p.lock.Unlock()
+	return true
+}
+
 // VerifNFS40State returns a snapshot of the state of a program created
 // by NewNFS40Program(). It acquires the program lock directly (without
 // going through enter()), so that taking a snapshot never triggers the
